@@ -115,7 +115,75 @@ def n_rename(src: str, path: str) -> str:
     return ast.unparse(ast.fix_missing_locations(tree)) + "\n"
 
 
-NEUTRAL: dict[str, Callable[[str, str], str]] = {"ast-roundtrip": n_unparse, "rename-locals": n_rename}
+class _ExtractConditions(ast.NodeTransformer):
+    """`if <cond>:` (not elif)  ->  `_c<n> = <cond>; if _c<n>:`  for compound conditions"""
+
+    def __init__(self) -> None:
+        self.n = 0
+
+    def _block(self, stmts: list[ast.stmt]) -> list[ast.stmt]:
+        out: list[ast.stmt] = []
+        for stmt in stmts:
+            stmt = self.visit(stmt)
+            if isinstance(stmt, ast.If) and isinstance(stmt.test, (ast.BoolOp, ast.Compare)) and not any(isinstance(n, (ast.NamedExpr, ast.Yield, ast.Await)) for n in ast.walk(stmt.test)):
+                self.n += 1
+                name = f"cond_tmp{self.n}"
+                out.append(ast.Assign(targets=[ast.Name(name, ast.Store())], value=stmt.test, lineno=stmt.lineno))
+                stmt.test = ast.Name(name, ast.Load())
+            out.append(stmt)
+        return out
+
+    def generic_visit(self, node: ast.AST) -> ast.AST:
+        for fld in ("body", "orelse", "finalbody"):
+            val = getattr(node, fld, None)
+            if isinstance(val, list) and val and isinstance(val[0], ast.stmt):
+                if fld == "orelse" and isinstance(node, ast.If) and len(val) == 1 and isinstance(val[0], ast.If):
+                    val[0] = self.generic_visit(val[0])  # elif: keep evaluation order  # type: ignore[assignment]
+                    continue
+                setattr(node, fld, self._block(val))
+        for name, val in ast.iter_fields(node):
+            if name in ("body", "orelse", "finalbody"):
+                continue
+            if isinstance(val, ast.AST):
+                self.generic_visit(val) if not isinstance(val, ast.stmt) else None
+            elif isinstance(val, list):
+                for item in val:
+                    if isinstance(item, ast.ExceptHandler):
+                        item.body = self._block(item.body)
+        return node
+
+
+def n_extract(src: str, path: str) -> str:
+    tree = ast.parse(src)
+    tree = _ExtractConditions().generic_visit(tree)
+    return ast.unparse(ast.fix_missing_locations(tree)) + "\n"
+
+
+class _Membership(ast.NodeTransformer):
+    """x in (A, B) -> x == A or x == B ; x not in (A, B) -> x != A and x != B ; a == b -> b == a for non-constant sides"""
+
+    def visit_Compare(self, node: ast.Compare) -> ast.AST:
+        self.generic_visit(node)
+        if len(node.ops) != 1:
+            return node
+        op, right = node.ops[0], node.comparators[0]
+        simple = isinstance(node.left, (ast.Name, ast.Attribute))
+        if isinstance(op, (ast.In, ast.NotIn)) and isinstance(right, ast.Tuple) and 1 < len(right.elts) <= 4 and simple and all(isinstance(e, ast.Attribute) for e in right.elts):
+            import copy as _c
+
+            parts = [ast.Compare(left=_c.deepcopy(node.left), ops=[ast.Eq() if isinstance(op, ast.In) else ast.NotEq()], comparators=[e]) for e in right.elts]
+            return ast.BoolOp(op=ast.Or() if isinstance(op, ast.In) else ast.And(), values=parts)
+        if isinstance(op, (ast.Eq, ast.NotEq)) and not isinstance(node.left, ast.Constant) and not isinstance(right, ast.Constant) and isinstance(right, (ast.Name, ast.Attribute)) and isinstance(node.left, (ast.Name, ast.Attribute)):
+            return ast.Compare(left=right, ops=[op], comparators=[node.left])
+        return node
+
+
+def n_membership(src: str, path: str) -> str:
+    tree = _Membership().visit(ast.parse(src))
+    return ast.unparse(ast.fix_missing_locations(tree)) + "\n"
+
+
+NEUTRAL: dict[str, Callable[[str, str], str]] = {"ast-roundtrip": n_unparse, "rename-locals": n_rename, "extract-conditions": n_extract, "membership-and-eq-forms": n_membership}
 
 
 # ------------------------------------------------------------------------------------------------ running
